@@ -73,6 +73,10 @@ def cases(shard, rnd):
             gv.array(rnd, 0, 3, width=4), rnd, 0.9)}
     yield {'wrap': 'table', 'v': {}}
     yield {'wrap': 'array', 'v': []}
+    for _ in range(60 if shard['tier'] == 'quick' else 3000):
+        a = gv.near_homogeneous_array(rnd)
+        yield {'wrap': rnd.choice(['array', 'array', 'table', 'nested']),
+               'v': a}
     # live dictionary: every constant of the tree under test as a value, a
     # key, a string / array length, a decimal part, an instant
     from ..gen import magic
